@@ -147,5 +147,6 @@ package transports
 //@   ensures [C11.dataaccept]  !overlap && !v4binary && !tooLarge ==> calls(Transport.OnData) == 1 && calls(io.WriteString) == 1
 //@   callsite Transport.OnData#1
 //@     assert [C10.declared] ctx.request.ContentLength <= p.Transport.$maxbuf
+//@     assert [C10.bounded]  ctx.request.Body == nil || ctx.request.ContentLength >= 0 || (calls(http.MaxBytesReader) == 1 && arg(http.MaxBytesReader, 1, n) == p.Transport.$maxbuf && ret(io.ReaderFrom.ReadFrom, 1, 1) == nil)
 //@     assert [C02.kind] isBinary ==> typeis($data, *types.BytesBuffer)
 //@     assert [C02.kindtext] !isBinary ==> typeis($data, *types.StringBuffer)
